@@ -73,7 +73,7 @@ func (r *RoundRobin) ServeHTTP(w http.ResponseWriter, req *http.Request) {
 		}
 
 		if present {
-			newReq.URL = cookieURL
+			newReq.URL = utils.CopyURL(cookieURL)
 			stuck = true
 		}
 	}
